@@ -174,3 +174,5 @@ pub use self::types::*;
 // re-export the type for web-time feature
 #[cfg(feature = "wasm32_web_time")]
 pub use deadline_support::Instant;
+#[cfg(similar_verif)]
+pub use deadline_support::verif_clock;
